@@ -28,10 +28,19 @@ def specC05 (j : Json) : Json :=
           match trainGroup env table ⟨"", none, ⟨"", (strList t "factor").map (fun c => (c, true))⟩⟩ with
           | .ok g => jStrs g.st.groups
           | .error _ => Json.null
+        -- labels (when sent): one per column, group-major
+        let labelsOk : Json :=
+          match t.getObjVal? "labels" with
+          | .ok (.arr _) =>
+            (match Spec.C05.checkLabels env table (strList t "factor") (strList t "labels")
+                    ((z.headD []).length) with
+             | .ok b => Json.bool b
+             | .error _ => Json.null)
+          | _ => Json.null
         match Spec.C05.check env table (strList t "factor") (strList t "groups") x z with
         | .ok v => Json.mkObj [("groups_ok", v.groupsOk), ("blocks_ok", v.blocksOk),
                                ("rows_in_one_group", v.everyRowInOneGroup), ("class_d30", d30),
-                               ("model_groups", modelGroups)]
+                               ("model_groups", modelGroups), ("labels_ok", labelsOk)]
         | .error er => ((errTag er).setObjVal! "class_d30" d30).setObjVal! "model_groups" modelGroups)
       Json.mkObj [("terms", Json.arr terms.toArray)]
 
@@ -49,13 +58,41 @@ def specC05New (j : Json) : Json :=
       let frame := frameOfJson ((j.getObjVal? "frame").toOption.getD Json.null)
       let names := namesOfJson ((j.getObjVal? "names").toOption.getD Json.null)
       let env : Env := { frame, names }
+      let hasTrain := (j.getObjVal? "train_frame").toOption.isSome
+      let trainEnv : Env := { frame := frameOfJson ((j.getObjVal? "train_frame").toOption.getD Json.null), names }
+      let src := (getArr j "src").filterMap (fun x => x.getNat?.toOption)
       let terms := (getArr j "terms").map (fun t =>
         let x := matrixOfJson ((t.getObjVal? "x").toOption.getD Json.null)
         let z := matrixOfJson ((t.getObjVal? "z").toOption.getD Json.null)
         let d30 := Spec.C05.classD30 table (strList t "factor")
-        match Spec.C05.checkNew env table (strList t "factor") (strList t "groups") x z with
-        | .ok v => Json.mkObj [("blocks_ok", v.blocksOk), ("any_unseen", v.anyUnseen),
-                               ("class_d30", d30)]
+        -- with "train_frame" + "src" + the term's "z_train": e's values on the new rows are read
+        -- from the training block (own slot of the source row), not from the effect object
+        let zTrain := matrixOfJson ((t.getObjVal? "z_train").toOption.getD Json.null)
+        let fromTraining := hasTrain && (t.getObjVal? "z_train").toOption.isSome
+        let verdict :=
+          if fromTraining then
+            Spec.C05.checkNewFromTraining trainEnv env table (strList t "factor") (strList t "groups")
+              src zTrain z
+          else Spec.C05.checkNew env table (strList t "factor") (strList t "groups") x z
+        match verdict with
+        | .ok v =>
+          -- "train_width": the derived block has the training slots (+ the appended one), each as
+          -- wide as at training; "labels": still one per training column, group-major
+          let widthOk : Json := match (t.getObjValAs? Nat "train_width").toOption with
+            | some w => Json.bool (Spec.C05.newWidthOk (strList t "groups") w v.anyUnseen z)
+            | none => Json.null
+          let labelsOk : Json :=
+            match t.getObjVal? "labels", (t.getObjValAs? Nat "train_width").toOption with
+            | .ok (.arr _), some w =>
+              if hasTrain then
+                (match Spec.C05.checkLabels trainEnv table (strList t "factor") (strList t "labels") w with
+                 | .ok b => Json.bool b
+                 | .error _ => Json.null)
+              else Json.null
+            | _, _ => Json.null
+          Json.mkObj [("blocks_ok", v.blocksOk), ("any_unseen", v.anyUnseen),
+                      ("class_d30", d30), ("width_ok", widthOk), ("labels_ok", labelsOk),
+                      ("from_training", fromTraining)]
         | .error er => (errTag er).setObjVal! "class_d30" d30)
       Json.mkObj [("terms", Json.arr terms.toArray)]
 
